@@ -11,16 +11,16 @@ CHECKS = {
    note="narrowed claim (DESIGN.md §4 C10): no scheduler and no real time in the encoding; the reaper goroutine is skipped",
    ref="DESIGN.md §4 C10"),
  "C20": dict(
-   text="Parser/evaluator kernel only: for every chain of up to K binary operators (all 13) over literal numeric operands (including 0, so NaN arises), with one optional parenthesised group and two spacings, the real parseExpr + sortPriority rotation + operator Run (executed from SSA, including Go's regexp lexers) yields the value a reference precedence-climbing evaluator computes with the documented table and left associativity; no panic. Field references, struct walking, nil/strings/len/regexp/in and the binding.Validate entry are reflect-based and not addressed.",
-   note="narrowed claim (DESIGN.md §4 C20): literals only, well-typed chains, K<=2 quick / 3 thorough; expressions are concrete choices (float arithmetic is kept out of the solver)",
+   text="Parser/evaluator kernel only: for every chain of up to K binary operators (all 13) over literal numeric operands (including 0, so NaN arises), with one optional parenthesised group and two spacings, the real parseExpr + sortPriority rotation + operator Run (executed from SSA, including Go's regexp lexers) yields the value a reference precedence-climbing evaluator computes with the documented table and left associativity; no panic. Further harnesses: in()/len() arguments, current-field references with injected values (nil, numbers, booleans, strings, slices), parenthesis-free runs of 4-5 operators, regexp() on literals, runs of unary minus, comparison operators on string operands (literals and symbolic letters). Reflect-based struct walking, sub-selectors, maps and the binding.Validate entry are not addressed.",
+   note="narrowed claim (DESIGN.md §4 C20): interpreter kernel; expressions are concrete choices except the symbolic letters of H7 (float arithmetic is kept out of the solver); values the documentation does not fix are only required not to panic",
    ref="DESIGN.md §4 C20"),
  "C09": dict(
-   text="Sequential recycling only: inside the real Serve keep-alive loop, request 1 is handled by a handler that applies a symbolic choice of one or two mutators (30 exported mutators of RequestContext/Request/Response/headers/URI, symbolic argument byte, optionally a recovered panic); request 2 is a fixed probe whose full observable state (about 40 getters, header/cookie/arg visits, flags) and response bytes are compared with those of a fresh connection using fresh objects; z3 is asked whether they can differ. A pooled body stream reused on another connection after a failed release is covered by ZZ_C14_H2. Cross-goroutine pool migration and data races are outside this technique.",
+   text="Sequential recycling only: inside the real Serve keep-alive loop, request 1 is handled by a handler that applies a symbolic choice of one or two mutators (41 exported mutators of RequestContext/Request/Response/headers/URI, symbolic argument byte, optionally a recovered panic); request 2 is a fixed probe whose full observable state (about 40 getters, header/cookie/arg visits, flags) and response bytes are compared with those of a fresh connection using fresh objects; z3 is asked whether they can differ. A pooled body stream reused on another connection after a failed release is covered by ZZ_C14_H2. Cross-goroutine pool migration and data races are outside this technique.",
    note="mutator list and dump are hand-written (a field reachable only through an unlisted API is not covered); sync.Pool modelled as LIFO; Acquire/Release of stand-alone Request/Response/URI/Cookie/Args values covered when ZZ_C09_H2 is listed",
    ref="DESIGN.md §4 C09"),
  "C13": dict(
-   text="The real standard.Conn (Peek/peekBuffer/Skip/Release/handleTail/fill/Read/next/ReadByte/ReadBinary/Len, Malloc/WriteBinary/Flush, linkBufferNode) is executed from SSA against a byte-queue model for every operation sequence of length K over the seven reader operations (three writer operations) with sizes in windows around 1, 1 KiB, 4 KiB and 8 KiB and four input fragmentations: bytes observed equal the wire at the model cursor (symbolic bytes at node boundaries), Len equals buffered-minus-consumed, every Peek slice is re-read after each later operation until the next Release, and after Flush the peer holds exactly the concatenation written. mcache/sync.Pool re-issue freed blocks so premature release is visible.",
-   note="K=2 (reader) / 3 (writer) in quick, 3/4 in thorough - far below the property's 60..200; sizes are concrete choices; TLS, ReadFrom, error/EOF paths outside",
+   text="The real standard.Conn (Peek/peekBuffer/Skip/Release/handleTail/fill/Read/next/ReadByte/ReadBinary/Len, Malloc/WriteBinary/Flush, linkBufferNode) is executed from SSA against a byte-queue model for every operation sequence of length K over the seven reader operations (three writer operations) with sizes in windows around 1, 1 KiB, 4 KiB and 8 KiB and four input fragmentations: bytes observed equal the wire at the model cursor (symbolic bytes at node boundaries), Len equals buffered-minus-consumed, every Peek slice is re-read after each later operation until the next Release, and after Flush the peer holds exactly the concatenation written. mcache/sync.Pool re-issue freed blocks so premature release is visible. Also: end of input at any point (H3), the > 512 KiB regime (BIG), ReadBinary results re-checked after Release, and ReadFrom after pending output (RF).",
+   note="K=2 (reader) / 3 (writer) in quick, 3/4 in thorough - far below the property's 60..200; sizes are concrete choices; TLS and read/write errors other than end of input outside",
    ref="DESIGN.md §4 C13"),
  "C04": dict(
    text="Handler programs over {9 status codes} x {no body, SetBody, AppendBody x2, SetBodyStream with known length / -1 / LimitedReader, hijacked chunked writer with and without intermediate flush} x {status before/after the body call} x {Connection: close} x {GET, HEAD} (thorough: two in sequence on one connection), with symbolic body bytes, run inside the real Serve loop; the bytes written are decoded by an independent strict response reader and z3 is asked whether status, body bytes, framing or the position where the next response starts can differ from what the handler produced, and whether bodiless responses can carry body bytes or chunked framing.",
@@ -43,11 +43,11 @@ CHECKS = {
    note="one open known finding (prefetch swallowing pipelined bytes when 0 < MaxRequestBodySize < Content-Length) is reported as KNOWN-FINDING; small-body regime only",
    ref="DESIGN.md §4 C14"),
  "C18": dict(
-   text="Only the sequential clauses of C18 are decided by this technique: with the engine's running flag turning false at a symbolic request index, the real Serve loop completes that request's response with Connection: close, handles nothing afterwards and returns errShortConnection; and Engine.Shutdown from every status value touches the transport and the hooks exactly once when running and reports an error otherwise (goroutines inlined: one schedule). Hook bounding, listener closing, the wait bound and every timing/interleaving clause of C18 are not addressed (no scheduler or clock in the encoding).",
+   text="Only the sequential clauses of C18 are decided by this technique: with the engine's running flag turning false at a symbolic request index, the real Serve loop completes that request's response with Connection: close, handles nothing afterwards and returns errShortConnection; and Engine.Shutdown from every status value touches the transport and the hooks exactly once when running and reports an error otherwise (goroutines under two fixed schedules: as early / as late as possible); the transport is asked to close its listener without waiting for slow hooks (modelled clock); the real standard transport's Shutdown closes the listener once and before it waits for active connections, returns nil when they are gone and the context error at the caller's deadline (ticker on the modelled clock). Hooks overlapping in time, a deadline passing while a hook runs, the accept loop's accounting against a concurrent Shutdown and netpoll's transport are not addressed (no scheduler in the encoding).",
    note="narrowed claim (DESIGN.md §4 C18); the rest of C18 is outside solver-based checking of sequential code",
    ref="DESIGN.md §4 C18"),
  "C19": dict(
-   text="The whole real Server.Serve with its deferred epilogue, the real stats.Controller and traceinfo are executed from SSA for every history within the bounds: k<=2 template requests, handler outcome (ok / Connection: close / recovered panic), truncation of the stream at every byte position, one I/O fault at a symbolic operation index (read or write side), keep-alive on/off, idle timeout zero/non-zero, streaming on/off. The tracer log must alternate start/finish, each handled request must be bracketed by its own pair, and stage events must be ordered with every started stage finished.",
+   text="The whole real Server.Serve with its deferred epilogue, the real stats.Controller and traceinfo are executed from SSA for every history within the bounds: k<=2 template requests, handler outcome (ok / Connection: close / recovered panic), truncation of the stream at every byte position, one I/O fault at a symbolic operation index (read or write side), keep-alive on/off, idle timeout zero/non-zero, streaming on/off, a ContinueHandler that declines Expect: 100-continue, malformed header blocks, bodies refused as too large, hijack; three requests per connection in H3. The tracer log must alternate start/finish, each handled request must be bracketed by its own pair, and stage events must be ordered with every started stage finished.",
    note="histories are finite choices (the fault index is a symbolic integer decided lazily by z3); request bytes concrete; clock stub monotone; netpoll's poller mode only as IdleTimeout==0",
    ref="DESIGN.md §4 C19"),
  "C01": dict(
@@ -55,16 +55,16 @@ CHECKS = {
    note="transport = real standard.Conn over a harness net.Conn (netpoll outside); small bodies; templates for H4 are concrete (the solver ranges over choices and fragment size there); bounds in evidence",
    ref="DESIGN.md §4 C01"),
  "C02": dict(
-   text="For four message streams (obs-folded header + body + pipelined request, chunked with trailer, plain pipelining, and a header area with two symbolic structural bytes), the real Serve loop over the real standard.Conn is run twice per path - whole, and cut at a split point ranging over every position (thorough: every pair) - and z3 is asked whether handler-visible requests or response bytes can differ.",
-   note="server direction only; the split point is a concrete choice per path, the structural bytes are symbolic; client response side not yet covered",
+   text="For nine message streams (obs-folded header + body + pipelined request, chunked with trailer, plain pipelining, a header area with two symbolic structural bytes, folded trailers, Expect: 100-continue, an unfinished follow-up, ...), the real Serve loop over the real standard.Conn is run twice per path - whole, and cut at a split point ranging over every position (thorough: every pair) - and z3 is asked whether handler-visible requests or response bytes can differ.",
+   note="the split point is a concrete choice per path, the structural bytes are symbolic; client direction through ZZ_C11_H2 (response reader, every split point and byte-at-a-time); nine stream templates by now",
    ref="DESIGN.md §4 C02"),
  "C07": dict(
    text="For every byte string up to the stated length (all 256 byte values at every position) the real normalizePath / decodeArgAppendNoPlus / CleanPath, executed symbolically from go/ssa, satisfy the containment predicate and equal an independent decode-then-stack reference; z3 finds no counterexample within the bound. Bounded model checking, not a proof: longer inputs are outside the claim.",
    note="trusted: go/ssa lowering, the engine's instruction semantics (counterexamples must replay natively), z3 4.8.12, the 40-line reference in the harness; bounds: quick N<=6/7/5 bytes, thorough 9/10/7",
    ref="DESIGN.md §4 C07"),
  "C08": dict(
-   text="The byte-range arithmetic of the static file handler: the real ParseByteRange (with ParseUint/ParseUintBuf) is executed symbolically for every range text up to N bytes (all byte values) against every non-negative 64-bit content length; z3 shows err==nil iff RFC 7233 says satisfiable, 0<=start<=end<len, and equality with a reference resolver. The file system, cache, compression and HEAD/GET plumbing are outside what this technique reaches and are not claimed.",
-   note="narrowed claim: range arithmetic only (DESIGN.md §4 C08); trusted: reference resolver in harness/pkg/app/c08.go; bounds quick N<=5/8, thorough 9/10",
+   text="The byte-range arithmetic of the static file handler: the real ParseByteRange (with ParseUint/ParseUintBuf) is executed symbolically for every range text up to N bytes (all byte values) against every non-negative 64-bit content length; z3 shows err==nil iff RFC 7233 says satisfiable, 0<=start<=end<len, and equality with a reference resolver. The request handler itself runs on cached in-memory entries (H3) and over a directory tree (FS, GZ): the os entry points fs.go uses are redirected to an in-memory tree written in Go and executed from SSA (natively the same harness uses a real temporary directory, compared on sampled paths): small/big/empty files, index file, generated index, missing and traversal targets, GET/HEAD, range forms, two requests per handler, and the Compress option with existing fresh twins. P: exactly the selected bytes of the right file with consistent Content-Length/Content-Range/Content-Encoding, 404/403/416, nothing outside the root.",
+   note="trusted: reference resolver in harness/pkg/app/c08.go and the 300-line in-memory tree harness/zzverif/memfs.go; creating compressed twins (gzip writer), cache expiry, If-Modified-Since, symlinks and permissions outside; bounds in evidence",
    ref="DESIGN.md §4 C08"),
  "C03": dict(
    text="No-panic for the exported parsers of untrusted data (URI.Parse, Args.ParseBytes, Cookie.ParseBytes incl. attribute switch, request cookies, Trailer.SetTrailers, multipart boundary, ParseUint) on fully symbolic input up to the stated lengths: every Go run-time check (index, slice bounds, nil deref, division) on every path is an implicit assertion discharged by z3. Server read-path clauses (clean 4xx, no handler, Connection: close) are covered by the Serve harnesses when listed in evidence.",
@@ -80,9 +80,13 @@ CHECKS = {
    ref="DESIGN.md §4 C17"),
 }
 
+CHECKS["C16"] = dict(
+   text="Narrowed: the router tree the hz generator builds from a declared (verb, path, handler name) set - RouterNode.Update/Insert/FindNearest/Sort, DyeGroupName and the identifier mangling in util (ToVarName, ToGoFuncName, GetMiddlewareUniqueName) - is executed from SSA (second Go module cmd/hz) for every set of up to 2 routes of up to D segments (and every set of exactly 3 routes over a smaller alphabet) over an alphabet with parameters, a catch-all, segments colliding after mangling, trailing slash and root path, verbs GET/POST/Any, router sorting on/off. The tree is then read through a hand-written interpreter of the router.go/middleware.go templates (Go block scoping of := variables, hertz path joining): every group variable declared before use, none declared twice in a block, none unused, valid and distinct identifiers, and exactly the declared (verb, path) set registered, each with its handler inside the groups of its path prefixes.",
+   note="the text/template bodies are NOT executed (a change to the template text is invisible to this check), nor are the IDL front ends, go/format, file output, handler-by-method aliases, snake-style names or the update of an existing router file; route sets are concrete choices",
+   ref="DESIGN.md §4 C16")
+
 NOT_APPLICABLE = {
  "C15": "binding is assembled through reflect/unsafe/sonic at run time and its statement includes concurrent first use; none of that is encodable by an SSA->SMT executor (DESIGN.md §5)",
- "C16": "the subject is the meaning of Go source emitted by text/template + go/format in a separate module; its semantics exist only after compiling the output (DESIGN.md §5)",
 }
 
 PENDING = "check not built yet in this revision (see DESIGN.md §7 build order); not claimed"
